@@ -5,22 +5,31 @@ From RV Require Import Base.Wire Base.Text Lang.PyAst Lang.PySem Gen.SafeCasts L
 Import ListNotations.
 Open Scope Z_scope.
 
+Local Notation tstep := (ConstEnv.tstep []).
+Local Notation tblock := (ConstEnv.tblock []).
+Lemma tstep_simple0 s te st : simple s -> tstep s te st = tsimple s te st.
+Proof.
+  intro H. rewrite tstep_simple by exact H. destruct (tsimple s te st) as [[[[te1 st1] r1] f1]|]; [|reflexivity].
+  destruct s; try reflexivity; contradiction.
+Qed.
+
 Lemma nstep_if al a b te st nh : nstep al (SIf a b) te st nh =
   match nblock al a te st nh with
-  | Some (te1, st1, nh1, r1) =>
-      match nblock al b te st1 nh1 with
-      | Some (te2, st2, nh2, r2) => Some (promote (promote te te1 []) te2 [], st2, nh2, [RIf r1 r2])
+  | Some (te1, _, nh1, r1) =>
+      match nblock al b te st nh1 with
+      | Some (te2, _, nh2, r2) =>
+          Some (forget (writes (SIf a b)) (promote (promote te te1 []) te2 []), st, nh2, [RIf r1 r2])
       | None => None end
   | None => None end.
 Proof. reflexivity. Qed.
 Lemma nstep_while al a te st nh : nstep al (SWhile a) te st nh =
-  match nblock al a te st nh with
-  | Some (te1, st1, nh1, r1) => Some (promote te te1 [], st1, nh1, [RWhile r1])
+  match nblock al a (forget (writes (SWhile a)) te) st nh with
+  | Some (te1, _, nh1, r1) => Some (promote (forget (writes (SWhile a)) te) te1 [], st, nh1, [RWhile r1])
   | None => None end.
 Proof. reflexivity. Qed.
 Lemma nstep_for al x a te st nh : nstep al (SFor x a) te st nh =
-  match nblock al a ((x, TMark) :: te) st nh with
-  | Some (te1, st1, nh1, r1) => Some (promote te te1 [x], st1, nh1, [RFor x r1])
+  match nblock al a ((x, TMark) :: forget (writes (SFor x a)) te) st nh with
+  | Some (te1, _, nh1, r1) => Some (promote (forget (writes (SFor x a)) te) te1 [x], st, nh1, [RFor x r1])
   | None => None end.
 Proof. reflexivity. Qed.
 Lemma nstep_simple al s te st nh : simple s -> nstep al s te st nh = nsimple al s te st nh.
@@ -87,7 +96,7 @@ Qed.
 
 Lemma nsim_simple s : simple s -> nsim_stmt s.
 Proof.
-  intros Hs te st nh. rewrite tstep_simple, nstep_simple by exact Hs.
+  intros Hs te st nh. rewrite tstep_simple0, nstep_simple by exact Hs.
   assert (PL : (forall x, s <> SObs (OFlash x)) -> rel (tsimple s te st) (nsimple false s te st nh) nh).
   { intro NF. rewrite (nsim_plain s Hs NF). unfold rel.
     destruct (tsimple s te st) as [[[[te1 st1] r1] f1]|]; [|reflexivity].
@@ -113,22 +122,22 @@ Proof.
     pose proof (nsim_block a Fa te st nh) as Ha. unfold rel in Ha.
     destruct (tblock a te st) as [[[[te1 st1] r1] f1]|]; [|rewrite Ha; reflexivity].
     destruct Ha as (nh1 & n1 & -> & P1 & R1).
-    pose proof (nsim_block b Fb te st1 nh1) as Hb. unfold rel in Hb.
-    destruct (tblock b te st1) as [[[[te2 st2] r2] f2]|]; [|rewrite Hb; reflexivity].
+    pose proof (nsim_block b Fb te st nh1) as Hb. unfold rel in Hb.
+    destruct (tblock b te st) as [[[[te2 st2] r2] f2]|]; [|rewrite Hb; reflexivity].
     destruct Hb as (nh2 & n2 & -> & P2 & R2).
     unfold rel. exists nh2, [RIf n1 n2]. split; [reflexivity|]. split; [eapply prefix_trans; eassumption|].
     intros st' nh' P. rewrite resolve_block_cons, resolve_if, R2 by exact P. rewrite R1; [reflexivity|]. eapply prefix_trans; eassumption.
   - (* while *)
     intros a Fa te st nh. rewrite tstep_while, nstep_while.
-    pose proof (nsim_block a Fa te st nh) as Ha. unfold rel in Ha.
-    destruct (tblock a te st) as [[[[te1 st1] r1] f1]|]; [|rewrite Ha; reflexivity].
+    pose proof (nsim_block a Fa (forget (writes (SWhile a)) te) st nh) as Ha. unfold rel in Ha.
+    destruct (tblock a (forget (writes (SWhile a)) te) st) as [[[[te1 st1] r1] f1]|]; [|rewrite Ha; reflexivity].
     destruct Ha as (nh1 & n1 & -> & P1 & R1).
     unfold rel. exists nh1, [RWhile n1]. split; [reflexivity|]. split; [exact P1|].
     intros st' nh' P. rewrite resolve_block_cons, resolve_while, R1 by exact P. reflexivity.
   - (* for *)
     intros x a Fa te st nh. rewrite tstep_for, nstep_for.
-    pose proof (nsim_block a Fa ((x, TMark) :: te) st nh) as Ha. unfold rel in Ha.
-    destruct (tblock a ((x, TMark) :: te) st) as [[[[te1 st1] r1] f1]|]; [|rewrite Ha; reflexivity].
+    pose proof (nsim_block a Fa ((x, TMark) :: forget (writes (SFor x a)) te) st nh) as Ha. unfold rel in Ha.
+    destruct (tblock a ((x, TMark) :: forget (writes (SFor x a)) te) st) as [[[[te1 st1] r1] f1]|]; [|rewrite Ha; reflexivity].
     destruct Ha as (nh1 & n1 & -> & P1 & R1).
     unfold rel. exists nh1, [RFor x n1]. split; [reflexivity|]. split; [exact P1|].
     intros st' nh' P. rewrite resolve_block_cons, resolve_for, R1 by exact P. reflexivity.
@@ -150,10 +159,10 @@ Proof.
   destruct (tblock p [] []) as [[[[te1 st1] r1] f1]|]; reflexivity.
 Qed.
 
-(* so the simulation theorems hold for the two-phase pipeline *)
-Theorem ir_flow_sound : forall p orc out,
-  flow_ok p = true -> python_outputs p orc = Some out -> firmware_outputs_ir false p orc = Some out.
-Proof. intros p orc out F P. rewrite ir_firmware_eq. apply flow_sound; assumption. Qed.
+(* so the simulation theorem holds for the two-phase pipeline *)
+Theorem ir_fresh_sound : forall p orc out,
+  is_fresh p = true -> python_outputs p orc = Some out -> firmware_outputs_ir false p orc = Some out.
+Proof. intros p orc out F P. rewrite ir_firmware_eq. apply env_fresh; assumption. Qed.
 
 (* the aliasing shortcut: every flash_pattern(pat) call bakes in the FINAL contents of pat *)
 Lemma alias_refuted :
@@ -162,8 +171,8 @@ Lemma alias_refuted :
   python_outputs w_flash_mut [] =
     Some [VList [VInt 1; VInt 0; VInt 1]; VList [VInt 1; VInt 0; VInt 1; VInt 0; VInt 128]; VList [VInt 0; VInt 1; VInt 0; VInt 128]] /\
   firmware_outputs_ir false w_flash_mut [] = python_outputs w_flash_mut [] /\ is_fresh w_flash_mut = true /\
-  (* a mutation in a branch that is NOT taken reaches the earlier call too *)
-  firmware_outputs_ir true w_flash_branch [0%nat] = Some [VList [VInt 255; VInt 0; VInt 255]] /\
+  (* a mutation in a branch that is not taken works on the branch's private copy: it reaches neither pipeline *)
+  firmware_outputs_ir true w_flash_branch [0%nat] = Some [VList [VInt 255; VInt 0]] /\
   python_outputs w_flash_branch [0%nat] = Some [VList [VInt 255; VInt 0]] /\
-  firmware_outputs_ir false w_flash_branch [0%nat] = Some [VList [VInt 255; VInt 0]] /\ flow_ok w_flash_branch = true.
+  firmware_outputs_ir false w_flash_branch [0%nat] = Some [VList [VInt 255; VInt 0]] /\ is_fresh w_flash_branch = true.
 Proof. vm_compute. repeat split; reflexivity. Qed.
